@@ -72,6 +72,7 @@ func writeEvidence(cfg checkCfg, b *Built, ag *agg, corpus map[string][3]int, si
 		"library_go_spawns":   ag.stats.GoSpawns,
 		"sim_sync_operations": ag.stats.SyncOps,
 		"starvation_guards":   ag.stats.StarveGuards,
+		"task_stall":          ag.stats.Naps,
 		"note":                "kinds with 0 sites in the tree under test cannot fire; see seams_rewritten",
 	}
 	samples := []json.RawMessage{}
